@@ -68,9 +68,40 @@ func C10(p *Prog, r *Run) {
 		}
 		okEO, okSuper := false, false
 		var flag *ssa.Phi
+		var pending *pendingFlag // flag has positive polarity ("clone still to be made")
 		var extra []string
-		for _, g := range guardsResolved(cloneCall.Block()) {
+		// Is ExpectedOffspring written during reproduce (directly or through a callee)? If not, a threshold test
+		// evaluated before the loop has the value it would have at every iteration.
+		eoWritten := len(FieldStores(rep, eo)) > 0
+		{
+			idxs := []int{rootGlobal, rootUnknown}
+			for i := range rep.Params {
+				idxs = append(idxs, i)
+			}
+			for _, idx := range idxs {
+				ws, _ := p.writeSet(rep, idx)
+				if _, w := ws["Species.ExpectedOffspring"]; w {
+					eoWritten = true
+				}
+			}
+		}
+		hoisted := map[ssa.Value]bool{} // conditions that are entry values of the pending flag
+		work := guardsResolved(cloneCall.Block())
+		for len(work) > 0 {
+			g := work[0]
+			work = work[1:]
+			if c, isC := g.Cond.(*ssa.Const); isC && hoisted[g.Cond] {
+				// the pending flag starts as a constant
+				if !IsConstBool(c, true) {
+					extra = append(extra, "the pending flag starts as "+c.String())
+				}
+				continue
+			}
 			gt := tm.Of(g.Cond)
+			if hoisted[g.Cond] && eoWritten && gt.Has(func(x *Term) bool { return x.Op == "field" && x.Obj == eo }) {
+				extra = append(extra, gt.String()+" evaluated before the loop although ExpectedOffspring is written during reproduce")
+				continue
+			}
 			switch {
 			case gt.Op == "bin" && gt.Name == ">" && gt.Args[0].Op == "field" && gt.Args[0].Obj == eo && gt.Args[0].Args[0].Op == "recv" && gt.Args[1].Op == "const":
 				k, _ := constInt(gt.Args[1].V)
@@ -100,6 +131,26 @@ func C10(p *Prog, r *Run) {
 					flag = ph
 					continue
 				}
+				if ph, ok := g.Cond.(*ssa.Phi); ok && g.True && flag == nil && !hoisted[g.Cond] {
+					// `pending := <init>` before the loop, `if pending { clone; pending = false }`: the guard
+					// "pending is true" is equivalent to "<init> was true and no clone was made yet"
+					// (analysePendingFlag); the init values are judged like conditions of the branch itself.
+					pf := analysePendingFlag(ph, cloneCall.(ssa.Instruction), InnermostLoop(Loops(rep), cloneCall.Block()))
+					flag, pending = ph, &pf
+					if pf.Shape {
+						var inits []Guard
+						for _, v := range pf.Inits {
+							inits = append(inits, Guard{v, true, g.At})
+						}
+						for _, ig := range resolveGuards(inits) {
+							hoisted[ig.Cond] = true
+							work = append(work, ig)
+						}
+					} else {
+						extra = append(extra, gt.String()+"="+fmt.Sprint(g.True))
+					}
+					continue
+				}
 				if gt.Op == "bin" && (gt.Name == "!=" || gt.Name == "==") && gt.Args[1].Op == "nil" {
 					continue // error checks
 				}
@@ -112,6 +163,12 @@ func C10(p *Prog, r *Run) {
 		// the done flag: false initially, set true only inside the branch
 		if flag == nil {
 			r.Bad("clone-branch.flag", p.Pos(cloneCall.Pos()), "no once-only flag guards the clone: every offspring of a sizeable species would be a clone")
+		} else if pending != nil {
+			why := pending.Why
+			if pending.Shape && pending.Clear == 0 {
+				why = "the flag is never cleared"
+			}
+			r.Check(pending.Shape && pending.Clear > 0, "clone-branch.flag", p.Pos(cloneCall.Pos()), "the once-only flag is armed before the loop and cleared only after the clone was made", "the flag that enables the champion clone can become false without a clone having been made: "+why)
 		} else {
 			okFlag := true
 			var visit func(ph *ssa.Phi, depth int)
